@@ -95,6 +95,9 @@ class Recorder:
                     raise AssertionError("injected")
                 raise InjectedFault("injected fault at %s" % name)
 
+    def on_empty_read(self, name: str, result: bool) -> None:
+        """Called after the consumer evaluated queue.empty() (result not yet used). Overridden by stale-read attacks."""
+
     def make_queue(self, name: str):
         rec = self
 
@@ -109,12 +112,57 @@ class Recorder:
                         raise KeyboardInterrupt
                 return super().get(block, timeout)
 
+            def empty(self):
+                result = super().empty()
+                rec.on_empty_read(name, result)
+                return result
+
             def _put(self, item):  # called with the queue's own mutex held: the true linearisation point of a put
                 super()._put(item)
                 kind = KIND.get(type(item).__name__, type(item).__name__)
                 rec.emit({"e": "QPUT", "k": kind, "thr": rec.tid()})
 
         return TracedQueue()
+
+
+class StaleReadAttack(Recorder):
+    """Adversarial schedule derived from the consumer's exit decision in Engine.tla / Stateful.tla (C_Timeout, C_Alive): every
+    shared-state read the decision depends on is made STALE by holding the consumer right after the read until every producer
+    thread has finished (put its last events and died), then letting it act on what it read.
+      mode "empty-exception": hold at the queue.Empty point (before the liveness check)        - the original lost-event race
+      mode "empty-call":      hold inside queue.empty() after it answered True                  - emptiness read before liveness
+    On correct code both are harmless (the decision re-reads / reads in a safe order); the run is validated like any other."""
+
+    def __init__(self, mode: str, fault: dict | None = None):
+        super().__init__(fault=fault)
+        self.mode = mode
+        self.producers: list[threading.Thread] = []
+        self.held = 0
+        self.main = threading.get_ident()
+
+    def _hold(self) -> None:
+        deadline = time.monotonic() + 3.0
+        while time.monotonic() < deadline:
+            with self.lock:
+                threads = list(self.producers)
+            if threads and all(not t.is_alive() for t in threads):
+                break
+            time.sleep(0.002)
+        self.held += 1
+
+    def point(self, name: str, data: dict) -> None:
+        if name in ("unit.worker.loop", "stateful.thread.step", "stateful.thread.exit", "unit.worker.took"):
+            t = threading.current_thread()
+            with self.lock:
+                if t not in self.producers:
+                    self.producers.append(t)
+        if self.mode == "empty-exception" and name in ("unit.consumer.empty", "stateful.consumer.empty") and self.held == 0:
+            self._hold()
+        super().point(name, data)
+
+    def on_empty_read(self, name: str, result: bool) -> None:
+        if self.mode == "empty-call" and result and threading.get_ident() == self.main and self.held == 0:
+            self._hold()
 
 
 def build_schema(desc: dict) -> dict:
